@@ -385,7 +385,9 @@ def _subset_job(args):
             else:
                 sent, exc = gen_vam(tpv, second=variant != "vam1", gap_ms=50 if variant == "vam3" else 1000)
                 # a report without time stamp or position is not a position report: a VAM is optional then
-                recs = judge_vam(sent, exc, tpv, optional=variant == "vam3" or not all(k in tpv for k in ("time", "lat", "lon")))
+                # first report: a VAM is due whenever the report carries a position; later reports: only with a time stamp too
+                need = ("lat", "lon") if variant == "vam1" else ("time", "lat", "lon")
+                recs = judge_vam(sent, exc, tpv, optional=variant == "vam3" or not all(k in tpv for k in need))
             for s in sent:
                 distinct.add(s.data)
             recs = [r for r in recs if (r["kind"], r.get("field")) not in base_sig(variant, base)]
@@ -968,7 +970,7 @@ def run(ctx):
         "mapping oracle mc/ref/cdd_map.py (value tables of TS 102 894-2 as quoted in the ASN.1 modules; two-way readings accepted as documented there)",
         "asn1tools decode of the emitted octets is trusted",
         "the orientation of the confidence ellipse is only checked for legality (gpsd epx/epy axis convention is not part of the statement)",
-        "a VAM is optional for a report that carries no time stamp or no position",
+        "a VAM is optional for a first report that carries no position and for a later report that carries no time stamp or no position",
     ]
 
 
@@ -992,7 +994,8 @@ def replay(path):
             bad = judge_cam(*gen_cam(tpv), tpv)
         else:
             bad = judge_vam(*gen_vam(tpv, second=rp["variant"] != "vam1", gap_ms=50 if rp["variant"] == "vam3" else 1000), tpv,
-                            optional=rp["variant"] == "vam3" or not all(k in tpv for k in ("time", "lat", "lon")))
+                            optional=rp["variant"] == "vam3" or not all(
+                                k in tpv for k in (("lat", "lon") if rp["variant"] == "vam1" else ("time", "lat", "lon"))))
     elif call == "station":
         n, b, _ = _station_job((rp["msg"], [rp["station_type"]], [rp["role"]]))
         bad = [x[0] for x in b]
